@@ -85,6 +85,13 @@ def leaf_histories(draw, tier):
         ticks.append([{'op': 'add_existing',
                        'key': draw(st.sampled_from(sorted(live))),
                        'state': draw(value)}])
+    elif fresh and draw(st.integers(0, 5)) == 0:
+        # one _add list naming the same new key twice: the second entry adds
+        # an existing key
+        reject = True
+        k = fresh.pop(0)
+        ticks.append([{'op': 'add', 'key': k, 'state': draw(value)},
+                      {'op': 'add_existing', 'key': k, 'state': draw(value)}])
     return {'kind': 'leaves', 'default': draw(st.sampled_from(LEAF_DEFAULTS)),
             'init': init, 'ticks': ticks, 'expect_reject': reject,
             'op_is_step': draw(st.integers(0, 3)) == 0}
